@@ -54,8 +54,8 @@ def seqobj(st, ty, items, origin=None):
 def model(st, v):
     o = obj(st, v)
     if not isinstance(o, ObjV) or 'model' not in st.heap[o.oid]:
-        from .report import Broken
-        raise Broken(f'container without a sequence model: {st.meta.get(o.oid) if isinstance(o, ObjV) else o} (an unmodelled constructor?)')
+        from .mirsym import Unmodelled
+        raise Unmodelled(f'container without a sequence model: {st.meta.get(o.oid) if isinstance(o, ObjV) else o} (an unmodelled constructor?)')
     return st.heap[o.oid]['model']
 
 
